@@ -67,13 +67,20 @@ func (b *faultyBatch) Reset()         { b.b.Reset() }
 // must surface as an error, a retry after the fault is gone must succeed, and a fresh
 // NodeDatabase over the same disk must then hold exactly the content (root = reference).
 func faultScenario(r *hx.Rng, failAt int) (key, desc string) {
+	k, d, _ := faultScenarioN(r, failAt)
+	return k, d
+}
+
+// faultScenarioN also returns how many disk write operations the commit made (for enumerating
+// every fault position, the final batch.Write included).
+func faultScenarioN(r *hx.Rng, failAt int) (key, desc string, writes int) {
 	res := hx.Guard(func() string {
 		mem, _ := db.NewMemDatabase()
 		fdb := &faultyDB{MemDatabase: mem, failAt: -1}
 		tdb := trie.NewDatabase(fdb)
 		t, _ := trie.NewTrie(common.Hash{}, tdb)
 		want := map[string][]byte{}
-		n := 3 + r.Intn(40)
+		n := 1 + r.Intn(12)
 		for i := 0; i < n; i++ {
 			k := r.Bytes(1 + r.Intn(3))
 			v := r.Bytes(r.Pick(1, 20, 33, 100, 3000))
@@ -86,6 +93,7 @@ func faultScenario(r *hx.Rng, failAt int) (key, desc string) {
 		}
 		fdb.count, fdb.failAt = 0, failAt
 		err = tdb.Commit(root, false)
+		writes = fdb.count
 		fired := fdb.fired
 		if fired && err == nil {
 			return fmt.Sprintf("write-fault-swallowed|NodeDatabase.Commit returned nil although disk write #%d failed", failAt)
@@ -117,7 +125,8 @@ func faultScenario(r *hx.Rng, failAt int) (key, desc string) {
 		}
 		return ""
 	})
-	return splitFinding(res)
+	k, d := splitFinding(res)
+	return k, d, writes
 }
 
 func splitFinding(res string) (string, string) {
